@@ -861,8 +861,11 @@ def run(ctx):
             with cf.ThreadPoolExecutor(nproc) as ex:
                 ares = list(ex.map(runa, chunks))
             aout = {}
+            adis = {}
             for ch, (rc, out, err) in zip(chunks, ares):
                 for l, o in zip(ch, out):
+                    if " |D " in o:
+                        o, _, adis[l] = o.partition(" |D ")
                     aout[l] = o
                 if rc != 0 or len(out) != len(ch):
                     bad = ch[len(out)] if len(out) < len(ch) else "?"
@@ -932,6 +935,37 @@ def run(ctx):
             for w, r in zip(words, rm):
                 if not r.startswith("ok " + w):
                     adiffs.append({"word": w, "model_encode_of_decode": r})
+            # the disassembler itself: (disasm f :bytecode) of the implementation vs the model's `decode` of the same words
+            try:
+                _, _, mnem = gen_asm.extract(ctx.build.tree)
+                ops_, _, _ = gen_bytecode.extract(ctx.build.tree)
+                num_of_mnem = dict((mnem[name], num) for name, num in ops_ if name in mnem)
+            except ExtractError:
+                num_of_mnem = {}
+            dec = dict((w, r.split(" ")[2:]) for w, r in zip(words, rm) if r.startswith("ok "))
+            astats["instructions_disassembled_compared"] = 0
+            for l, d in adis.items():
+                o = aout.get(l, "")
+                if not o.startswith("ok ") or not num_of_mnem:
+                    continue
+                top = o.split(" ", 2)[1].split("/")[0]
+                body, _, n = top.partition(";n=")
+                wmap = dict(p.split(":") for p in body.split(",") if ":" in p)
+                instrs = d.split(";") if d else []
+                if len(instrs) != int(n or 0):
+                    adiffs.append({"case": l[:200], "why": "disasm length %d, bytecode length %s" % (len(instrs), n)})
+                    continue
+                for i, ins in enumerate(instrs):
+                    w = wmap.get(str(i), "00000000")
+                    parts = ins.lstrip("!").split(",")
+                    exp = None if parts[0] == "raw" else [str(num_of_mnem.get(parts[0], -1))] + parts[1:]
+                    got = dec.get(w) if w != "00000000" else ["0"]
+                    if got is None and w not in dec:
+                        continue            # word only present in a nested funcdef list
+                    astats["instructions_disassembled_compared"] += 1
+                    if exp != got or (ins.startswith("!") != bool(int(w, 16) & 0x80)):
+                        adiffs.append({"word": w, "impl_disasm": ins, "model_decode": got})
+                        break
             if adiffs:
                 broken.append("correspondence model/impl on instruction words: %d differences, first %s" % (len(adiffs), json.dumps(adiffs[:3])[:600]))
                 ctx.broken.append(broken[-1])
